@@ -590,6 +590,7 @@ pub open spec fn strategy_post(r: Seq<DatumId>, data: Seq<DatumId>, add: Seq<Dat
 }
 
 //@fn truc/src/record/definition/builder/native/variant/dummy.rs :: fn append_data
+//@ attr #[verifier::loop_isolation(false)]
 //@ ret r
 //@ requires
         strategy_pre(data@, data_to_add@, data_to_remove@, old(datum_definitions).data@)
@@ -675,6 +676,7 @@ pub proof fn lemma_members_reverse(out: Seq<DatumId>, f: Seq<DatumId>, add: Seq<
 }
 
 //@fn truc/src/record/definition/builder/native/variant/dummy.rs :: fn append_data_reverse
+//@ attr #[verifier::loop_isolation(false)]
 //@ ret r
 //@ requires
         strategy_pre(data@, data_to_add@, data_to_remove@, old(datum_definitions).data@)
@@ -851,6 +853,8 @@ pub proof fn lemma_insert_wf(data: Seq<DatumId>, defs_b: Defs, defs_a: Defs, dc:
 }
 
 //@fn truc/src/record/definition/builder/native/variant/basic.rs :: fn basic
+//@ attr #[verifier::loop_isolation(false)]
+//@ attr #[verifier::allow_complex_invariants]
 //@ ret r
 //@ requires
         strategy_pre(data@, data_to_add@, data_to_remove@, old(datum_definitions).data@)
